@@ -156,7 +156,7 @@ let walk_str (w : walk_obs) : string =
   match w with
   | WNone -> "-"
   | WErr -> "e"
-  | WBitmap l -> "B" ^ dots si l
+  | WBitmap (l, c) -> "B" ^ dots si l ^ "/" ^ String.concat "" (List.map b01 c)
   | WSvc l -> "S" ^ (if l = [] then "-" else String.concat "," (List.map svcval_str l))
   | WTxt l -> "T" ^ dots hex_of_bytes l
 
